@@ -80,7 +80,7 @@ fn pl_content_with(field: &str, level: i64) -> Value {
     c
 }
 
-pub const TEMPLATES: [Template; 21] = [
+pub const TEMPLATES: [Template; 22] = [
     ("C promotes M to 100", C, "m.room.power_levels", "", || pl_content(&[(C, 100), (M, 100)])),
     ("C demotes M", C, "m.room.power_levels", "", || pl_content(&[(C, 100)])),
     ("M promotes U to 50", M, "m.room.power_levels", "", || pl_content(&[(C, 100), (M, 50), (U, 50)])),
@@ -107,6 +107,8 @@ pub const TEMPLATES: [Template; 21] = [
     ("M sets join_rules invite", M, "m.room.join_rules", "", || json!({"join_rule": "invite"})),
     // a join that only a public join rule authorises (K was never invited)
     ("K joins", K, "m.room.member", K, || json!({"membership": "join"})),
+    // a second power-levels state event, under a non-empty state key (unusual but valid): it is not "the" power levels
+    ("C sets power_levels under state key x", C, "m.room.power_levels", "x", || pl_content_with("kick", 60)),
 ];
 
 /// names for appended events: creation order and id order deliberately disagree
